@@ -20,7 +20,8 @@ import (
 	"verif/vs"
 )
 
-var sigma = []string{"", "a", "b", "\x00", "é", "\"", "\\", "\n", "�", "日本"}
+// (the last two: texts that are formatting directives when mistaken for a format string)
+var sigma = []string{"", "a", "b", "\x00", "é", "\"", "\\", "\n", "�", "日本", "%", "100%d %s"}
 
 var payloads = [][]byte{nil, {}, []byte("a"), {0x00, 0xff}, []byte("0123456789012345678901234567890123456789012345678901234567890123456789")}
 
